@@ -343,12 +343,10 @@ impl Sim {
         self.next_idx[conn][dir as usize][ch as usize]
     }
 
+    /// Bytes a message counts for in the "within budget" window. Until fix F26 the receiver reserved whole
+    /// slices for a partial message and the window had to be slice-rounded; the budget is in bytes now.
     pub fn rounded(len: usize) -> usize {
-        if len <= 1200 {
-            len
-        } else {
-            len.div_ceil(1200) * 1200
-        }
+        len
     }
 
     /// "Within budget" (DESIGN C09): sender accepts it and everything submitted and not yet
